@@ -46,7 +46,7 @@ def step (st : St) : List String → St × String
     match parseNat? N, parseRat? q, parseRat? fov with
     | some N, some q, some fov =>
       let M := paddedSize N q
-      (st, s!"ok {showBool (outSize M fov == M)} {M}")
+      (st, s!"ok {showBool (outSize M fov == M)} {M} {showRat (roundSlack (q * N))} {showRat (outSlack M fov)}")
     | _, _, _ => (st, "bad-op")
   | _ => (st, "bad-op")
 
